@@ -25,6 +25,8 @@ def key_of(row):
     """Key of a rejected line (one report and one known_findings entry per key). Signing lines are keyed by protocol, variant,
     group and the stage at which the run departs from an accepted one - not by quorum / policy / message, which vary with the seed."""
     r = row
+    if r.get("a") == "blsdev":
+        return "blsdev:%s:%s:nComp%s:%s" % (r["variant"], r["kind"], ">1" if r["nComp"] > 1 else "=1", "accepted" if r["ok"] else ("panic" if r["panic"] else "blame"))
     if r.get("a") != "sign":
         return r.get("k") or r.get("a", "?")
     if "keyErr" in r:
@@ -294,6 +296,44 @@ def run_otvole(chk):
         "production-curve OT / VOLE (ProdProto): VSOT, SoftSpoken (seeded by a real VSOT run), rvole/softspoken with both parties honest; "
         "OT outputs are compared as tokens by ProdTrace, c + d = a * b is evaluated with math/big modulo the group order; rvole/bbot and ecbbot "
         "on production curves run inside DKLs23 signing (C01 part)"]
+    return res
+
+
+# ------------------------------------------------------------------------------------------------------------------- deviating cosigner, BLS (C04)
+
+def run_blsdev(chk):
+    """Boldyreva threshold BLS with one deviating cosigner: every alteration of the partial signature (components, cancelling offsets,
+    order, other message, length, proofs of possession, a peer's partial signature) against an honest aggregator; short / long keys x
+    basic / aug / pop; single-component (threshold) and replicated (CNF, gate) sharings."""
+    binary = _build()["plain"]
+    stats = {"lines": 0, "by_kind": {}, "by_variant": {}, "by_policy": {}, "multi_component": 0, "blamed_deviator": 0}
+
+    def on_rows(tag, body):
+        for r in body:
+            stats["lines"] += 1
+            _bump(stats["by_kind"], r["kind"])
+            _bump(stats["by_variant"], r["variant"])
+            _bump(stats["by_policy"], r["polName"])
+            if r["nComp"] > 1:
+                stats["multi_component"] += 1
+            if r["blamed"] == [r["dev"]]:
+                stats["blamed_deviator"] += 1
+        if body:
+            e = body[len(body) // 2]
+            chk.sample({"prod_blsdev": e["k"], "ok": e["ok"], "blamed": e["blamed"], "err": e["err"][:160]}, cap=8)
+    variants = ["tamper:bls:%s-%s" % (v, m) for v in ("short", "long") for m in ("basic", "aug", "pop")]
+    tasks = []
+    for i, v in enumerate(variants):
+        tasks.append(("rv:blsdev-%d" % i, _job(chk, "blsdev-%d" % i, binary, False, ["-mode", "tamper", "-only", v], stats, on_rows, 400, 3000)))
+    res = vlib.parallel(tasks, max_workers=6)
+    if stats["lines"] == 0 or stats["multi_component"] == 0:
+        raise vlib.MachineryError("BLS deviation driver produced %d lines (%d with several components)" % (stats["lines"], stats["multi_component"]))
+    _finish_part(chk, "prod_blsdev", stats, res, stats["lines"],
+                 "prod blsdev: one case = one altered partial signature of one deviating cosigner presented to an honest aggregator (real pairings)")
+    chk.assumptions += [
+        "Boldyreva BLS deviation matrix (ProdProto, production curve BLS12-381): one deviating cosigner, alterations keep every point a valid "
+        "subgroup element so that only the pairing checks can catch them; the quick tier takes two deviators per quorum and the replicated CNF "
+        "policy cnf3 for every variant plus half of {th2of3, cnf4, gate3} by seed"]
     return res
 
 
